@@ -102,6 +102,8 @@ def tlaps_chain(work, rep):
 
 
 # how many runs of each plan are repeated with an upgrade over a released database in the middle (quick tier; x4 in the thorough tier)
+# properties whose runs are repeated with passes of the REST distributor (a reader inside the process) between the requests
+DISTRIBUTE = {"C01": 40, "C03": 40, "C04": 60, "C08": 40, "C16": 40, "C20": 30}
 MIGRATE = {"C01": 150, "C02": 60, "C03": 60, "C04": 40, "C08": 60, "C09": 200, "C12": 40, "C16": 40, "C20": 40}
 
 
@@ -180,6 +182,22 @@ def make_check(prop, plans_of, rule, nontrivial, level="model_checking", assumpt
                                         + [{"op": "get", "log": x} for x in sorted(c["Logs"])]})
                 if mig:
                     passes.append((mig, ["sqlfile"], ["id"], tagname(pl.name) + "mig", pl.name + " + upgrade over a released database"))
+            ndist = DISTRIBUTE.get(prop, 0) if tier == "quick" else 4 * DISTRIBUTE.get(prop, 0)
+            if ndist:
+                # the witness' own REST distributor makes a pass between the requests (environment step "distribute" of Witness.tla: it only READS
+                # the latest checkpoints); every property has to survive it, on the store that hands out its bytes (in-memory) and on SQLite
+                dr = []
+                for r_ in rng.sample(runs, min(len(runs), ndist)):
+                    st_ = r_.get("steps") or []
+                    if len(st_) >= 2:
+                        out_ = []
+                        for x_ in st_:
+                            out_.append(x_)
+                            if x_.get("op") == "update" and rng.random() < 0.5:
+                                out_.append({"op": "distribute"})
+                        dr.append({"id": r_["id"] + "-dist", "steps": out_ + [{"op": "distribute"}] + [{"op": "get", "log": l_} for l_ in sorted(c["Logs"])]})
+                if dr:
+                    passes.append((dr, ["inmem", "sqlmem"], ["id"], tagname(pl.name) + "dist", pl.name + " + distributor passes between the requests"))
             for runs_, stores_, embeds_, tag_, pname_ in passes:
                 trace, runs_path = execute(work, rep, c, runs_, stores_, embeds_, seed, http=pl.http, keyof=pl.keyof, tag=tag_)
                 events = index_trace(trace)
@@ -332,7 +350,7 @@ want_accept = lambda e: e["act"].get("v") == "Accept"
 
 # ----------------------------------------------------------------------------- C01
 
-ENV_ALL = {"restart", "upgrade", "future", "legacyonly"}
+ENV_ALL = {"restart", "upgrade", "distribute", "future", "legacyonly"}
 
 
 def want_env_or_accept(e):
